@@ -144,7 +144,7 @@ example :
   refine ⟨by decide, Or.inl (by decide), ?_, by decide +kernel⟩
   intro q hq
   simp only [List.mem_cons, List.not_mem_nil, or_false] at hq
-  rcases hq with rfl | rfl | rfl | rfl <;> simp [Demux.Opens, Demux.slotOf, Demux.remap, demuxRemapFrom, demuxSubclasses] <;> omega
+  rcases hq with rfl | rfl | rfl | rfl <;> simp [Demux.Opens, Demux.slotOf, Demux.remap, Demux.remapWith, demuxRemapFrom, demuxLowLimit, demuxSubclasses] <;> omega
 
 
 /-- corpus/C09/20-demux-unsupported-header.ops: title packet 0/3 "ABCD", interrupted after "AB" by a
@@ -165,40 +165,138 @@ theorem demux_unsupported_header_counterexample :
     Demux.deliveries (Demux.run true Demux.init witnessReject).2 = [⟨0, 3, [0x41, 0x42, 0x43, 0x44]⟩] := by
   decide +kernel
 
-/-- no_slot_aliasing (xds_demux.c) is FALSE: subclasses 0x10..0x17 and 0x40..0x47 of one class use the
-    same buffer (`if (i >= 0x40) i += 0x10 - 0x40` is applied to every class and 0x10..0x17 is not
-    excluded). -/
-theorem demux_no_slot_aliasing_counterexample :
+/-! ### no_slot_aliasing (xds_demux.c, F33)
+
+`Demux.remap` is `Demux.remapWith` at the four constants translate/gen_xds.py reads from the tree under
+test: subclasses `>= from` are moved so that `from` lands on `to`; subclasses `low .. from - 1` are
+refused; `n` is the second extent of `subpacket[][]`.  Two source shapes:
+
+* unrepaired (F33): `if (i >= 0x40) i += 0x10 - 0x40;`, extent 0x18: `from, to, low, n = 64, 16, 64, 24`
+* repaired (fixes/C09-demux-0x4n-own-buffers.diff): `if (i >= 0x40) i += VBI_XDS_MAX_SUBCLASSES - 0x40;
+  else if (i >= VBI_XDS_MAX_SUBCLASSES) i = N_ELEMENTS (xd->subpacket[0]);`, extent 0x18 + 8: `64, 24, 24, 32`.
+
+The theorems are stated for every layout; which one applies to the tree is decided by `low <= to`. -/
+
+/-- Every layout whose refused gap starts at or below the place the high subclasses are moved to
+    (`low <= to`) gives distinct accepted (class, subclass) pairs distinct buffers. -/
+theorem demux_no_slot_aliasing_of_layout (f t l n : Nat) (hl : l ≤ t) (c1 s1 c2 s2 : Nat)
+    (h1 : Demux.remapWith f t l n s1 < n) (h2 : Demux.remapWith f t l n s2 < n)
+    (h : c1 * n + Demux.remapWith f t l n s1 = c2 * n + Demux.remapWith f t l n s2) : c1 = c2 ∧ s1 = s2 := by
+  have hc : c1 = c2 := by
+    rcases Nat.lt_trichotomy c1 c2 with hlt | heq | hgt
+    · exfalso
+      have : (c1 + 1) * n ≤ c2 * n := Nat.mul_le_mul_right n hlt
+      rw [Nat.add_mul] at this; omega
+    · exact heq
+    · exfalso
+      have : (c2 + 1) * n ≤ c1 * n := Nat.mul_le_mul_right n hgt
+      rw [Nat.add_mul] at this; omega
+  subst hc
+  refine ⟨rfl, ?_⟩
+  have h' : Demux.remapWith f t l n s1 = Demux.remapWith f t l n s2 := by omega
+  unfold Demux.remapWith at h' h1 h2
+  split at h' <;> split at h' <;> (try split at h') <;> (try split at h') <;> simp_all <;> omega
+
+/-- Every layout that moves the high subclasses onto indices still open to low ones (`to < low`, `to < from`,
+    `to < n`) makes subclasses `to` and `from` of one class share a buffer: F33 for all such layouts. -/
+theorem demux_slot_aliasing_of_layout (f t l n : Nat) (h1 : t < l) (h2 : t < f) (h3 : t < n) :
+    Demux.remapWith f t l n t < n ∧ Demux.remapWith f t l n f < n ∧
+    Demux.remapWith f t l n t = Demux.remapWith f t l n f ∧ t ≠ f := by
+  have a : ¬ t ≥ f := by omega
+  have b : ¬ t ≥ l := by omega
+  simp only [Demux.remapWith, a, b, if_false, ge_iff_le, Nat.le_refl, if_true]
+  omega
+
+/-- no_slot_aliasing (xds_demux.c) at FULL strength for a tree with the repair: all accepted (class, subclass)
+    pairs - 0x00..0x17 and 0x40..0x47 of the classes current .. misc - have buffers of their own.  The hypothesis
+    is a closed fact about the generated constants (`demux_layout_of_this_tree`): true with
+    fixes/C09-demux-0x4n-own-buffers.diff applied, false on the unrepaired tree. -/
+theorem demux_no_slot_aliasing (hl : demuxLowLimit ≤ demuxRemapTo) (c1 s1 c2 s2 : Nat)
+    (h1 : Demux.accepted c1 s1) (h2 : Demux.accepted c2 s2)
+    (h : Demux.slotOf c1 s1 = Demux.slotOf c2 s2) : c1 = c2 ∧ s1 = s2 :=
+  demux_no_slot_aliasing_of_layout _ _ _ _ hl c1 s1 c2 s2 h1.2 h2.2 h
+
+/-- no_slot_aliasing (xds_demux.c) is FALSE on a tree without the repair: subclasses 0x10..0x17 and 0x40..0x47
+    of one class use the same buffer (`if (i >= 0x40) i += 0x10 - 0x40` is applied to every class and
+    0x10..0x17 is not excluded).  The hypotheses are closed facts about the generated constants, true on the
+    unrepaired tree (16 < 64, 16 < 64, 16 < 24), the first one false with the repair (24 < 24). -/
+theorem demux_no_slot_aliasing_counterexample (h1 : demuxRemapTo < demuxLowLimit) (h2 : demuxRemapTo < demuxRemapFrom)
+    (h3 : demuxRemapTo < demuxSubclasses) :
     ¬ (∀ c1 s1 c2 s2, Demux.accepted c1 s1 → Demux.accepted c2 s2 →
         Demux.slotOf c1 s1 = Demux.slotOf c2 s2 → c1 = c2 ∧ s1 = s2) := by
   intro h
-  have := h 3 0x10 3 0x40 (by decide) (by decide) (by decide)
-  omega
+  obtain ⟨a, b, e, ne⟩ := demux_slot_aliasing_of_layout _ _ _ _ h1 h2 h3
+  have := h 0 demuxRemapTo 0 demuxRemapFrom ⟨Nat.zero_le _, a⟩ ⟨Nat.zero_le _, b⟩
+    (by simp only [Demux.slotOf, Demux.remap]; rw [e])
+  exact ne this.2
 
-/-- no_slot_aliasing (xds_demux.c), the part that holds: below 0x40 (all subclasses EIA-608 defines
-    for the classes current, future, channel) distinct (class, subclass) have distinct buffers. -/
+/-- which of the two cases the tree under test is: the flag the translator reads (is the branch
+    `else if (i >= ..) i = N_ELEMENTS (..)` present) agrees with the arithmetic condition of the theorems, and
+    the three side conditions of the counterexample hold exactly when the flag is off.  A half-applied repair
+    (new mapping without the larger array, larger array without the new mapping, refusal branch with the old
+    target) makes this fail to build or changes the accepted set, which the reference oracle reports. -/
+theorem demux_layout_of_this_tree :
+    decide (demuxLowLimit ≤ demuxRemapTo) = demuxGapRefused ∧
+    decide (demuxRemapTo < demuxLowLimit ∧ demuxRemapTo < demuxRemapFrom ∧ demuxRemapTo < demuxSubclasses) = !demuxGapRefused ∧
+    demuxSubclasses = demuxMaxSubclasses + (if demuxGapRefused then 8 else 0) ∧
+    (∀ s, s < 128 → (Demux.remap s < demuxSubclasses ↔ s < 0x18 ∨ (0x40 ≤ s ∧ s < 0x48))) := by
+  refine ⟨by decide, by decide, by decide, ?_⟩
+  decide +kernel
+
+-- non-vacuity, independent of the tree: the two layouts as literals
+example : Demux.remapWith 64 16 64 24 0x10 = Demux.remapWith 64 16 64 24 0x40 ∧ Demux.remapWith 64 16 64 24 0x40 < 24 := by decide
+example : Demux.remapWith 64 24 24 32 0x10 = 0x10 ∧ Demux.remapWith 64 24 24 32 0x40 = 0x18 ∧
+    Demux.remapWith 64 24 24 32 0x47 < 32 ∧ ¬ Demux.remapWith 64 24 24 32 0x48 < 32 ∧ ¬ Demux.remapWith 64 24 24 32 0x18 < 32 ∧
+    ¬ Demux.remapWith 64 24 24 32 0x3F < 32 := by decide
+
+/-- no_slot_aliasing (xds_demux.c), the part that holds in either shape: below 0x40 (all subclasses EIA-608
+    defines for the classes current, future, channel) distinct (class, subclass) have distinct buffers. -/
 theorem demux_no_slot_aliasing_partial (c1 s1 c2 s2 : Nat) (h1 : Demux.accepted c1 s1) (h2 : Demux.accepted c2 s2)
-    (l1 : s1 < 0x40) (l2 : s2 < 0x40) (h : Demux.slotOf c1 s1 = Demux.slotOf c2 s2) : c1 = c2 ∧ s1 = s2 := by
-  simp only [Demux.accepted, Demux.slotOf, Demux.remap, demuxRemapFrom, demuxRemapTo, demuxSubclasses,
-    demuxMaxClass] at *
-  have e1 : ¬ (s1 ≥ 64) := by omega
-  have e2 : ¬ (s2 ≥ 64) := by omega
-  simp only [e1, e2, if_false] at h h1 h2
-  omega
-
-example : Demux.slotOf 3 0x10 = Demux.slotOf 3 0x40 ∧ Demux.accepted 3 0x40 := by decide
+    (l1 : s1 < demuxRemapFrom) (l2 : s2 < demuxRemapFrom) (h : Demux.slotOf c1 s1 = Demux.slotOf c2 s2) : c1 = c2 ∧ s1 = s2 := by
+  have e : ∀ s, s < demuxRemapFrom → Demux.remap s = Demux.remapWith demuxRemapFrom 0 demuxLowLimit demuxSubclasses s := by
+    intro s hs
+    have : ¬ s ≥ demuxRemapFrom := by omega
+    simp [Demux.remap, Demux.remapWith, this]
+  simp only [Demux.accepted, Demux.slotOf] at h1 h2 h
+  rw [e s1 l1] at h1 h; rw [e s2 l2] at h2 h
+  -- below `from` the map is the identity or the refusal
+  have key : ∀ s, s < demuxRemapFrom → Demux.remapWith demuxRemapFrom 0 demuxLowLimit demuxSubclasses s < demuxSubclasses →
+      Demux.remapWith demuxRemapFrom 0 demuxLowLimit demuxSubclasses s = s := by
+    intro s hs hlt
+    have : ¬ s ≥ demuxRemapFrom := by omega
+    simp only [Demux.remapWith, this, if_false] at hlt ⊢
+    split at hlt
+    · omega
+    · rename_i hh; simp [hh]
+  rw [key s1 l1 h1.2, key s2 l2 h2.2] at h
+  have b1 := key s1 l1 h1.2; have b2 := key s2 l2 h2.2
+  have q1 : s1 < demuxSubclasses := by rw [← b1]; exact h1.2
+  have q2 : s2 < demuxSubclasses := by rw [← b2]; exact h2.2
+  have hc : c1 = c2 := by
+    rcases Nat.lt_trichotomy c1 c2 with hlt | heq | hgt
+    · exfalso
+      have : (c1 + 1) * demuxSubclasses ≤ c2 * demuxSubclasses := Nat.mul_le_mul_right _ hlt
+      rw [Nat.add_mul] at this; omega
+    · exact heq
+    · exfalso
+      have : (c2 + 1) * demuxSubclasses ≤ c1 * demuxSubclasses := Nat.mul_le_mul_right _ hgt
+      rw [Nat.add_mul] at this; omega
+  subst hc
+  exact ⟨rfl, by omega⟩
 
 /-- corpus/C09/30-demux-alias-0x10-0x40.ops: packet 3/0x40 "ABCD" interrupted after "AB" by a complete
     packet 3/0x10 "PQ", re-opened with its continue pair -/
 def witnessAlias : List (Nat × Nat) :=
   [(0x07, 0x40), (0xC1, 0xC2), (0x07, 0x10), (0xD0, 0x51), (0x8F, 0xB9), (0x08, 0x40), (0x43, 0xC4), (0x8F, 0x20)]
 
-/-- what the shared buffer costs: the valid packet 3/0x40 of the witness is never delivered (either
-    control flow), only the interrupting 3/0x10 is. -/
+/-- what the shared buffer costs, and what the repair gives: on a tree without the refusal branch
+    (`demuxGapRefused = false`, F33) the valid packet 3/0x40 of the witness is never delivered (either control
+    flow), only the interrupting 3/0x10 is; with the repair both are delivered, the interrupted one intact. -/
 theorem demux_alias_loses_packet (rk : Bool) :
     witnessAlias = (interleaved7 ⟨3, 0x40, [0x41, 0x42, 0x43, 0x44]⟩ (checksum ⟨3, 0x40, [0x41, 0x42, 0x43, 0x44]⟩)
       [(0x41, 0x42)] [([(7, 0x10), (0x50, 0x51), (0x0F, checksum ⟨3, 0x10, [0x50, 0x51]⟩)], [(0x43, 0x44)])]).map parPair ∧
-    Demux.deliveries (Demux.run rk Demux.init witnessAlias).2 = [⟨3, 0x10, [0x50, 0x51]⟩] := by
+    Demux.deliveries (Demux.run rk Demux.init witnessAlias).2 =
+      (if demuxGapRefused then [⟨3, 0x10, [0x50, 0x51]⟩, ⟨3, 0x40, [0x41, 0x42, 0x43, 0x44]⟩] else [⟨3, 0x10, [0x50, 0x51]⟩]) := by
   cases rk <;> decide +kernel
 
 /-! ## caption.c -/
